@@ -23,7 +23,9 @@ META = {
             'DC/rack layouts (<=2 DCs x <=3 racks) x SimpleStrategy rf 1-3 and NetworkTopologyStrategy settings x host states (every up/down-announced combination, plus each '
             'single host down but not yet announced to the child) x child policy (RoundRobin, DCAwareRoundRobin local_dc x used_hosts_per_remote_dc, '
             'scripted child with every LOCAL/REMOTE/IGNORED map x 3 fixed plans) x one routing key per token range x shuffle_replicas off / on with '
-            'every permutation x keyspace taken from the statement, the session, both (statement wins), or absent.  Oracle: plan == [replicas of the '
+            'every permutation x keyspace taken from the statement, the session, both (statement wins), or absent; plus lazy-consumption '
+            'histories: the plan generator is advanced by every cut 0..n, then one host goes down (before or after the child is told) or comes '
+            'up, then the rest is consumed (no host twice, nothing of the wrapped plan left out).  Oracle: plan == [replicas of the '
             'key (independent placement reference) that are up and LOCAL for the child, in ring (or permuted) order] ++ [the child\'s recorded plan '
             'minus those], nothing repeated, nothing of the child\'s plan missing.',
     'note': 'Distances and the wrapped plan are inputs of the property and are read from the child (recording proxy). Ring order of '
@@ -283,9 +285,83 @@ def run_world(part, seq, locs, family, only=None):
                                 continue
                             eval_point(part, c, tap, rec, cfg, state, up, dist, si, ki, key, shuffle_flag, perm_cell,
                                        SimpleStatement, name_of, family)
+                # ---- the plan is a generator the request path consumes lazily: host state may change half way
+                if family == 'real' and only is None and sum(1 for x in state if x != 'up') <= 1 and 'down-unannounced' not in state:
+                    lazy_histories(part, c, pol, cluster, cfg, state, by_dc, SimpleStatement, Recorder, family)
         part.count('worlds')
     finally:
         pol.shuffle, pol.randint = orig_shuffle, orig_randint
+
+
+def lazy_build(pol, cluster, cfg, state, c, by_dc, Recorder):
+    hosts = c.w.hosts
+    nh = c.w.nhosts
+    for i in range(nh):
+        hosts[i].is_up = (state[i] == 'up')
+    inner = pol.RoundRobinPolicy() if cfg[0] == 'rr' else pol.DCAwareRoundRobinPolicy(local_dc=cfg[1], used_hosts_per_remote_dc=cfg[2])
+    rec = Recorder(inner)
+    tap = pol.TokenAwarePolicy(rec, shuffle_replicas=False)
+    tap.populate(cluster, [hosts[i] for i in by_dc])
+    for i in range(nh):
+        if state[i] == 'down':
+            tap.on_down(hosts[i])
+    return tap, rec
+
+
+def lazy_one(part, c, pol, cluster, cfg, state, by_dc, SimpleStatement, Recorder, si, ki, cut, hi, flip, family):
+    """consume `cut` hosts of the plan, change host hi's state, consume the rest.  Returns the violation count added."""
+    w = c.w
+    hosts, name_of = w.hosts, w.name_of
+    tap, rec = lazy_build(pol, cluster, cfg, state, c, by_dc, Recorder)
+    key = c.keys[ki][1]
+    q = SimpleStatement('select 1', routing_key=key, keyspace=w.ksnames[si])
+    gen = tap.make_query_plan(None, q)
+    got = []
+    try:
+        for _ in range(cut):
+            got.append(name_of[next(gen)])
+    except StopIteration:
+        return None                      # the plan is shorter than the cut: nothing to do
+    h = hosts[hi]
+    if flip == 'down-silent':            # Cluster.on_down: Host.set_down() happens before the policies are told
+        h.is_up = False
+    elif flip == 'down-announced':
+        h.is_up = False
+        tap.on_down(h)
+    elif flip == 'up-announced':         # Cluster.on_up: set_up() and policy.on_up()
+        h.is_up = True
+        tap.on_up(h)
+    got += [name_of[x] for x in gen]
+    part.count('evaluations')
+    part.count('lazy_histories')
+    child_plans = [[name_of[x] for x in pl] for pl in rec.plans]
+    case = {'lazy': True, 'seq': list(c.seq), 'locs': [list(x) for x in c.locs_t], 'family': family, 'child': _listify(cfg), 'state': list(state),
+            'setting_index': si, 'setting': list(c.settings[si]), 'key_index': ki, 'cut': cut, 'host': hi, 'flip': flip}
+    n0 = len(part.violations)
+    if len(set(got)) != len(got):
+        rep = [x for x in got if got.count(x) > 1][0]
+        part.violation('C22/lazy/repeat/%s' % flip, 'host %s is yielded twice when host %s goes %s after %d hosts were taken: plan %r, wrapped plan %r, case %r'
+                       % (rep, w.names[hi], flip, cut, got, child_plans, case), case)
+    for pl in child_plans:
+        lost = [x for x in pl if x not in got]
+        if lost:
+            part.violation('C22/lazy/lost/%s' % flip, 'host %s of the wrapped plan is left out when host %s goes %s after %d hosts were taken: plan %r, '
+                           'wrapped plan %r, case %r' % (lost[0], w.names[hi], flip, cut, got, pl, case), case)
+    part.outcome(('lazy', flip, len(got)))
+    return len(part.violations) - n0
+
+
+def lazy_histories(part, c, pol, cluster, cfg, state, by_dc, SimpleStatement, Recorder, family):
+    nh = c.w.nhosts
+    sis = [i for i, (kind, opts) in enumerate(c.settings) if (kind == 'simple' and opts['replication_factor'] in ('2', '3'))][:2]
+    sis += [i for i, (kind, opts) in enumerate(c.settings) if kind == 'nts'][:1]
+    for si in sis:
+        for ki in range(len(c.keys)):
+            for cut in range(0, nh + 1):
+                for hi in range(nh):
+                    flips = ('down-silent', 'down-announced') if state[hi] == 'up' else ('up-announced',)
+                    for flip in flips:
+                        lazy_one(part, c, pol, cluster, cfg, state, by_dc, SimpleStatement, Recorder, si, ki, cut, hi, flip, family)
 
 
 def _listify(x):
@@ -449,6 +525,23 @@ def run(ctx):
 def replay(ctx, data):
     part = Part()
     seq, locs = tuple(data['seq']), tuple(tuple(x) for x in data['locs'])
+    if data.get('lazy'):
+        import cassandra.policies as pol
+        from cassandra.query import SimpleStatement
+        Scripted, Recorder = make_policies()
+        per_dc = (sum(1 for d, _ in locs if d == 'dc0'), sum(1 for d, _ in locs if d == 'dc1'))
+        c = Case(seq, locs, settings_for(per_dc))
+        by_dc = sorted(range(c.w.nhosts), key=lambda i: locs[i][0])
+        orig = pol.randint
+        pol.randint = lambda a, b: a if b <= a else a + 1
+        try:
+            lazy_one(part, c, pol, FakeCluster(c.w.metadata), tuple(data['child']), tuple(data['state']), by_dc, SimpleStatement, Recorder,
+                     data['setting_index'], data['key_index'], data['cut'], data['host'], data['flip'], data['family'])
+        finally:
+            pol.randint = orig
+        for fp, what, d in part.violations:
+            print(fp, '::', what[:600])
+        return bool(part.violations)
     run_world(part, seq, locs, data['family'],
               only=(data['child'], data['state'], data['setting_index'], data['key_index'], data['shuffle']))
     if not part.counters.get('evaluations'):
